@@ -109,19 +109,23 @@ def write (s : St) (bs : Bytes) : St × Nat × Option EK :=
 def wsSync (s : St) : St × Bool :=
   ({ s with sink := s.sink ++ [.sync], sscript := s.sscript.tail }, s.sscript.headD false)
 
-/-- `BufferedWriteSyncer.Sync`: `multierr.Append(flushErr, s.WS.Sync())` as the list of its parts -/
-def sync (s : St) : St × List EK :=
+/-- `BufferedWriteSyncer.Sync`: `multierr.Append(flushErr, s.WS.Sync())` as its two parts
+    (the error of `s.writer.Flush()`, whether `s.WS.Sync()` failed) -/
+def sync (s : St) : St × Option EK × Bool :=
   let r := if s.init then flush s else (s, none)
   let r2 := wsSync r.1
-  (r2.1, r.2.toList ++ (if r2.2 then [.sync] else []))
+  (r2.1, r.2, r2.2)
+
+/-- the errors inside a `multierr` value, in order -/
+def errList (e : Option EK × Bool) : List EK := e.1.toList ++ (if e.2 then [.sync] else [])
 
 /-- a tick received by `flushLoop`: `_ = s.Sync()`; there is no loop before initialisation or after Stop -/
 def tick (s : St) : St := if s.init && !s.stopped then (sync s).1 else s
 
 /-- `BufferedWriteSyncer.Stop` (sequentially): nothing when not initialised or already stopped;
     otherwise mark stopped, end the loop, and `return s.Sync()` -/
-def stop (s : St) : St × List EK :=
-  if !s.init || s.stopped then (s, []) else sync { s with stopped := true }
+def stop (s : St) : St × Option EK × Bool :=
+  if !s.init || s.stopped then (s, none, false) else sync { s with stopped := true }
 
 /-- the operations of a history -/
 inductive Op where
@@ -140,9 +144,9 @@ deriving DecidableEq, Repr
 
 def step (s : St) : Op → St × Ret
   | .write bs => let r := write s bs; (r.1, .wrote r.2.1 r.2.2)
-  | .sync => let r := sync s; (r.1, .errs r.2)
+  | .sync => let r := sync s; (r.1, .errs (errList r.2))
   | .tick => (tick s, .nothing)
-  | .stop => let r := stop s; (r.1, .errs r.2)
+  | .stop => let r := stop s; (r.1, .errs (errList r.2))
 
 def run (s : St) : List Op → St
   | [] => s
@@ -171,6 +175,14 @@ def writesOf : List Op → List Bytes
   | [] => []
   | .write bs :: r => bs :: writesOf r
   | _ :: r => writesOf r
+
+/-- the bytes the caller was told were accepted (the first `n` bytes of every `Write` that returned `n`), in order -/
+def accepted (s : St) : List Op → Bytes
+  | [] => []
+  | .write bs :: os => bs.take (write s bs).2.1 ++ accepted (write s bs).1 os
+  | .sync :: os => accepted (sync s).1 os
+  | .tick :: os => accepted (tick s) os
+  | .stop :: os => accepted (stop s).1 os
 
 /-- a freshly constructed `&BufferedWriteSyncer{WS: ws, Size: size}` over a sink with these scripts -/
 def mk (size : Int) (ws : List WOut) (ss : List Bool) : St :=
